@@ -159,8 +159,10 @@ def case_of_json(j) -> dict:
 # ------------------------------------------------------------------- implementation runner
 def canon(r) -> str:
     from elementpath.datatypes import Float
-    if isinstance(r, list):
-        return 'EMPTY' if not r else 'SEQ:' + str(len(r))
+    if isinstance(r, (list, tuple)):
+        if len(r) == 1:
+            return canon(r[0])
+        return 'EMPTY' if not r else 'SEQ[' + ','.join(canon(x) for x in r) + ']'
     if isinstance(r, bool):
         return 'OTHER:bool'
     if isinstance(r, float):
@@ -191,35 +193,64 @@ def num10(c: str) -> str:
 _shared_parsers = {}
 
 
-def run_impl(case, variant: int = 0) -> str:
-    """variant 0: elementpath.select (a fresh parser per call);  variant 1: one long-lived parser instance per
-    version, the token tree evaluated twice with fresh contexts (state carried between calls would show);
-    variant 2: Selector object, select() called twice"""
+def guarded(fn) -> str:
+    """canonical result of one evaluation path; every exception is part of the observed behaviour"""
     import elementpath
     try:
-        expr = expr_of(case)
-        if variant == 1:
-            cls = parser_of(case['v'])
-            prs = _shared_parsers.setdefault(case['v'], cls())
-            token = prs.parse(expr)
-            first = canon(token.evaluate(elementpath.XPathContext(root=None, item=1)))
-            second = canon(token.evaluate(elementpath.XPathContext(root=None, item=1)))
-            r = first if first == second else f'UNSTABLE:{first}|{second}'
-        elif variant == 2:
-            sel = elementpath.Selector(expr, parser=parser_of(case['v']))
-            first = canon(sel.select(None, item=1))
-            second = canon(sel.select(None, item=1))
-            r = first if first == second else f'UNSTABLE:{first}|{second}'
-        else:
-            r = canon(elementpath.select(None, expr, parser=parser_of(case['v']), item=1))
-        return num10(r) if case['v'] == '10' else r
+        return canon(fn())
     except elementpath.ElementPathError as e:
-        code = (getattr(e, 'code', None) or 'NOCODE').split(':')[-1]
-        return 'ERR:' + code
+        return 'ERR:' + (getattr(e, 'code', None) or 'NOCODE').split(':')[-1]
     except BaseException as e:  # noqa  (a raw Python exception is itself a finding of the check)
         if isinstance(e, (KeyboardInterrupt, SystemExit)):
             raise
         return 'ERR:OTHER:' + type(e).__name__
+
+
+def eval_paths(expr: str, ver: str, variables=None, api: bool = False, shared: bool = False) -> str:
+    """Evaluate `expr` through the public paths and return the canonical result, or `PATHS{...}` listing
+    them when they disagree:  token.evaluate(context)  and  list(token.select(context))  on one parsed token
+    (fresh contexts), and with api=True also elementpath.select(...) and list(elementpath.iter_select(...)).
+    shared=True parses with one long-lived parser instance per version."""
+    import elementpath
+    cls = parser_of(ver)
+
+    def ctx():
+        return elementpath.XPathContext(root=None, item=1, variables=dict(variables) if variables else None)
+    try:
+        prs = _shared_parsers.setdefault(ver, cls()) if shared else cls()
+        token = prs.parse(expr)
+    except elementpath.ElementPathError as e:
+        return 'ERR:' + (getattr(e, 'code', None) or 'NOCODE').split(':')[-1]
+    except BaseException as e:  # noqa
+        if isinstance(e, (KeyboardInterrupt, SystemExit)):
+            raise
+        return 'ERR:OTHER:' + type(e).__name__
+    res = {'evaluate': guarded(lambda: token.evaluate(ctx())),
+           'select': guarded(lambda: list(token.select(ctx())))}
+    if api:
+        kw = {'variables': dict(variables)} if variables else {}
+        res['api.select'] = guarded(lambda: elementpath.select(None, expr, parser=cls, item=1, **kw))
+        res['api.iter_select'] = guarded(lambda: list(elementpath.iter_select(None, expr, parser=cls, item=1, **kw)))
+        res['Selector'] = guarded(lambda: elementpath.Selector(expr, parser=cls).select(None, item=1, **kw))
+    vals = set(res.values())
+    if len(vals) == 1:
+        return vals.pop()
+    return 'PATHS{' + ' '.join(f'{k}={v}' for k, v in res.items()) + '}'
+
+
+def conv_ver(r: str, ver: str) -> str:
+    if ver != '10':
+        return r
+    if r.startswith('SEQ['):
+        return 'SEQ[' + ','.join(num10(x) for x in r[4:-1].split(',')) + ']'
+    return num10(r)
+
+
+def run_impl(case, variant: int = 0) -> str:
+    """variant 0: one parsed token, evaluate + select;  1: the same through a long-lived parser instance;
+    2: additionally the module-level API (select, iter_select, Selector)"""
+    r = eval_paths(expr_of(case), case['v'], api=(variant == 2), shared=(variant == 1))
+    return conv_ver(r, case['v'])
 
 
 # --------------------------------------------------------------------------- generators
@@ -460,6 +491,8 @@ CORPUS = [
     C('20', 'idiv', ('i', 10**400), ('i', 3)), C('20', 'idiv', ('i', 10**400), D(2.0)), C('20', 'mod', ('i', 10**400), D(2.0)),
     C('20', 'mod', D(2.0), ('i', 10**400)), C('20', 'floor', ('i', 10**400)), C('20', 'mod', ('d', 15, 1), ('i', 10**400)),
     C('20', 'div', ('i', 10**400), D(0.0)), C('20', 'mod', ('i', 10**400), ('d', 3, 0)), C('20', 'add', ('i', 2**1024), D(1.0)),
+    C('20', 'mul', ('i', 0), ('i', 5)), C('31', 'mul', D(0.0), ('i', 5)), C('20', 'mul', D(-1.0), ('i', 0)), C('20', 'mul', ('d', 0, 1), ('d', 25, 1)),
+    C('10', 'mul', ('i', 0), ('i', 5)), C('10', 'mul', D(-1.0), D(0.0)), C('20', 'mul', F(0.0), F(-3.0)), C('20', 'sub', ('i', 7), ('i', 7)),
     C('20', 'sub', D(0.0), D(0.0)), C('20', 'mul', D(-0.0), ('i', 5)), C('20', 'mul', ('d', 15, 1), ('i', 2 ** 63 - 1)),
 ]
 
@@ -468,40 +501,73 @@ CORPUS = [
 def parse_answer(ans: str):
     d = dict(kv.split('=', 1) for kv in ans.split(' '))
     flags = [] if d['flags'] == '_' else d['flags'].split(',')
+    parse_answer.raw = d.get('mraw', d['model'])
     return d['model'], d['spec'], (None if d.get('specI', '_') == '_' else d['specI']), flags
 
 
-def compare(run: Run, cases: list, stats=True) -> None:
+def ask(run: Run, cases: list) -> list:
+    """driver answers for simple cases: list of dicts model/spec/specI/flags/raw (None for a protocol error)"""
     lines = [line_of(c) for c in cases]
-    answers = run.driver('C06', lines)
-    st = run.stats
-    for case, line, ans in zip(cases, lines, answers):
-        cj = case_json(case)
+    out = []
+    for ans in run.driver('C06', lines):
         if ans.startswith('bad-'):
-            run.disagree(Disagreement(cj, 'driver:' + ans, what='protocol'))
+            out.append(None)
             continue
         model, spec, spec_i, flags = parse_answer(ans)
-        variant = (__import__("zlib").crc32(line.encode()) % 8) if stats else 0
+        out.append({'model': model, 'spec': spec, 'specI': spec_i, 'flags': flags, 'raw': parse_answer.raw})
+    return out
+
+
+def judge(run: Run, cj, site: str, impl: str, a: dict, stats: bool, what: str = 'value') -> list:
+    """compare one implementation result with one driver answer; returns the finding tags"""
+    model, spec, spec_i, flags = a['model'], a['spec'], a['specI'], a['flags']
+    st = run.stats
+    tags = [f for f in flags if f in FINDING_IDS]
+    if 'F06c' in tags and 'fhyp' in flags and spec_i is not None and impl != spec_i and impl != spec \
+            and 'F06t' not in tags and 'F06p' not in tags:
+        # F06c covers the *rounding* of xs:float only: the result must still be the F&O result computed
+        # with binary64 rounding + clamp (theorem float_ops_eq_spec_up_to_rounding); otherwise it is a
+        # dispatch/type defect and must be reported
+        tags.remove('F06c')
+        if stats:
+            st.count('F06c-tag-refused')
+    if 'big' in flags:
+        # outside the domain where Python's float floor division is exact: only the result kind
+        if not (impl.startswith('i:') or impl == 'ERR:FOAR0002'):
+            run.disagree(Disagreement(cj, impl, model, spec, what='idiv-big-kind', site=site, tags=tags))
+        return tags
+    spec_cmp = None if ('idef' in flags or 'ovf' in flags) else spec
+    if spec_cmp is not None and impl != spec_cmp:
+        run.disagree(Disagreement(cj, impl, model, spec, what=what, site=site, tags=tags))
+        if tags and impl != model:      # inside a finding region the model must still mirror the code
+            run.disagree(Disagreement(cj, impl, model, None, what='model-in-finding-region', site=site))
+    elif impl != model:
+        run.disagree(Disagreement(cj, impl, model, spec_cmp, what='model' if what == 'value' else what + '/model', site=site))
+    return tags
+
+
+def compare(run: Run, cases: list, stats=True) -> None:
+    answers = ask(run, cases)
+    st = run.stats
+    wrapped = []
+    for case, a in zip(cases, answers):
+        cj = case_json(case)
+        if a is None:
+            run.disagree(Disagreement(cj, 'driver:bad', what='protocol'))
+            continue
+        flags = a['flags']
+        h = __import__("zlib").crc32(line_of(case).encode())
+        variant = (h % 8) if stats else 0
         variant = variant if variant in (1, 2) else 0
         impl = run_impl(case, variant)
-        if stats:
-            st.count(f'api:{("select", "shared-parser-token-twice", "Selector-twice")[variant]}')
-        tags = [f for f in flags if f in FINDING_IDS]
-        if 'F06c' in tags and 'fhyp' in flags and spec_i is not None and impl != spec_i and impl != spec \
-                and 'F06t' not in tags and 'F06p' not in tags:
-            # F06c covers the *rounding* of xs:float only: the result must still be the F&O result computed
-            # with binary64 rounding + clamp (theorem float_ops_eq_spec_up_to_rounding); otherwise it is a
-            # dispatch/type defect and must be reported
-            tags.remove('F06c')
-            if stats:
-                st.count('F06c-tag-refused')
         types = case['a'][0] + (case['b'][0] if case['b'] else '')
         if stats:
+            st.count(f'paths:{("evaluate+select", "shared-parser:evaluate+select", "evaluate+select+api.select+iter_select+Selector")[variant]}')
             st.case(cj, nontrivial=True)
             st.count('op:' + case['op'])
             st.count('types:' + types)
             st.count('parser:' + case['v'])
-            st.count('result:' + (impl if impl.startswith('ERR') else impl.split(':')[0] + (':' + impl.split(':')[1] if impl.split(':')[1] in SPECIALS else '')))
+            st.count('result:' + (impl if impl.startswith(('ERR', 'PATHS')) else impl.split(':')[0] + (':' + impl.split(':')[1] if impl.split(':')[1] in SPECIALS else '')))
             for f in flags:
                 st.count('flag:' + f)
             if case['op'] in ('idiv', 'mod') and case['b'] and not impl.startswith('ERR'):
@@ -510,18 +576,225 @@ def compare(run: Run, cases: list, stats=True) -> None:
                     return '?' if (v[0] == 'S' or not isinstance(x, (int, Fr))) else '-' if x < 0 else '+' if x > 0 else '0'
                 st.count(f"signs:{case['op']}:{sg(case['a'])}{sg(case['b'])}")
         site = f"{case['op']}@{case['v']}:{types}"
-        if 'big' in flags:
-            # outside the domain where Python's float floor division is exact: only the result kind
-            if not (impl.startswith('i:') or impl == 'ERR:FOAR0002'):
-                run.disagree(Disagreement(cj, impl, model, spec, what='idiv-big-kind', site=site, tags=tags))
+        judge(run, cj, site, impl, a, stats)
+        zeroish = a['raw'].split(':')[-1] in ('0', '-0', '0/1') or a['raw'] in ('i:0',)
+        if stats and (zeroish or h % 4 == 0):
+            wrapped.append((case, a))
+    if wrapped:
+        compare_contexts(run, wrapped)
+
+
+# ------------------------------------------------------------- operand-position contexts
+def operand_of_raw(raw: str):
+    """a typed model result as an operand value (None when it is an error / not representable)"""
+    if raw.startswith(('ERR', 'SEQ', 'EMPTY')):
+        return None
+    t, rest = raw.split(':', 1)
+    if t == 'i':
+        return ('i', int(rest))
+    if t == 'd':
+        q = Fr(rest)
+        for sc in range(0, 420):
+            if (q * 10**sc).denominator == 1:
+                return ('d', int(q * 10**sc), sc)
+        return None
+    return (t, rest if rest in SPECIALS else Fr(rest))
+
+
+CONTEXTS_20 = ['seq', 'for', 'abs', 'add0', 'rdiv', 'neg', 'fnarg', 'pred']
+CONTEXTS_10 = ['add0', 'rdiv', 'neg', 'floor']
+
+
+def wrap_expr(kind: str, e: str) -> str:
+    return {'seq': f'({e}, 1)', 'for': f'for $x in ({e}) return $x', 'abs': f'abs({e})', 'add0': f'({e}) + 0',
+            'rdiv': f'1 div ({e})', 'neg': f'-({e})', 'fnarg': f'round-half-to-even({e}, 1)',
+            'pred': f'(7, 8)[{e} = {e} or true()]', 'floor': f'floor({e})'}[kind]
+
+
+def compare_contexts(run: Run, wrapped: list) -> None:
+    """the same operator expression as an operand of another operator, as a function argument, inside a
+    sequence constructor and a `for`: the result of the inner expression must reach the outer one unchanged
+    (zero, negative zero and error results included).  Expected = the model/spec of the outer operation on
+    the inner *model* result (second driver pass)."""
+    st = run.stats
+    jobs = []
+    for case, a in wrapped:
+        if 'big' in a['flags']:
+            continue            # the inner model value is not reliable there (float floor division)
+        if case['v'] == '10' and a['raw'] == 'd:0/1':
+            continue            # Decimal('-0.00') keeps a sign the value model does not carry (see docs: decimal -0)
+        kinds = CONTEXTS_10 if case['v'] == '10' else CONTEXTS_20
+        h = __import__("zlib").crc32(('ctx' + line_of(case)).encode())
+        huge = len(a['raw']) > 300     # beyond the double range: the F06p fallback of round-half-to-even goes
+        for kind in {kinds[h % len(kinds)], kinds[(h // 7 + 1) % len(kinds)]}:   # through float -> Decimal('Infinity')
+            if not (huge and kind == 'fnarg'):
+                jobs.append((case, a, kind))
+    outer_cases, idx = [], {}
+    for n, (case, a, kind) in enumerate(jobs):
+        r = operand_of_raw(a['raw'])
+        if r is None:
             continue
-        spec_cmp = None if ('idef' in flags or 'ovf' in flags) else spec
-        if spec_cmp is not None and impl != spec_cmp:
-            run.disagree(Disagreement(cj, impl, model, spec, what='value', site=site, tags=tags))
-            if tags and impl != model:      # inside a finding region the model must still mirror the code
-                run.disagree(Disagreement(cj, impl, model, None, what='model-in-finding-region', site=site))
-        elif impl != model:
-            run.disagree(Disagreement(cj, impl, model, spec_cmp, what='model', site=site))
+        v = case['v']
+        oc = {'abs': C(v, 'abs', r), 'add0': C(v, 'add', r, ('i', 0)), 'rdiv': C(v, 'div', ('i', 1), r),
+              'neg': C(v, 'neg', r), 'fnarg': C(v, 'rhe', r, p=1), 'floor': C(v, 'floor', r)}.get(kind)
+        if oc is not None:
+            idx[n] = len(outer_cases)
+            outer_cases.append(oc)
+    outer_answers = ask(run, outer_cases) if outer_cases else []
+    for n, (case, a, kind) in enumerate(jobs):
+        inner = expr_of(case)
+        expr = wrap_expr(kind, inner)
+        impl = conv_ver(eval_paths(expr, case['v'], api=(n % 5 == 0)), case['v'])
+        cj = dict(case_json(case), context=kind, expr=expr)
+        site = f"context:{kind}@{case['v']}"
+        st.count('context:' + kind)
+        inner_tagged = any(f in FINDING_IDS or f in ('idef', 'ovf', 'big') for f in a['flags'])
+        if a['model'].startswith('ERR'):
+            exp = {'model': a['model'], 'spec': a['spec'], 'specI': None, 'flags': list(a['flags']), 'raw': a['raw']}
+        elif kind == 'seq':
+            one = 'N:1/1' if case['v'] == '10' else 'i:1'
+            exp = {'model': f"SEQ[{a['model']},{one}]", 'spec': f"SEQ[{a['spec']},{one}]", 'specI': None,
+                   'flags': list(a['flags']), 'raw': ''}
+        elif kind == 'for':
+            exp = dict(a, specI=None)
+        elif kind == 'pred':
+            exp = {'model': 'SEQ[i:7,i:8]', 'spec': 'SEQ[i:7,i:8]', 'specI': None, 'flags': [], 'raw': ''}
+            if a['model'].endswith('NaN'):
+                pass        # NaN = NaN is false, `or true()` keeps both items
+        elif n in idx and outer_answers[idx[n]] is not None:
+            exp = dict(outer_answers[idx[n]])
+            exp['specI'] = None
+            if inner_tagged or a['model'] != a['spec']:
+                # the inner result is inside a finding / implementation-defined region: only the tie is checked
+                exp['flags'] = exp['flags'] + ['idef']
+        else:
+            continue
+        judge(run, cj, site, impl, exp, True, what='operand-context')
+
+
+# ------------------------------------------------------------------ call-site reuse
+def gen_reuse(rng) -> dict:
+    """one call site evaluated several times with *different* arguments: `for` over operand lists, the simple
+    map operator, a function item called repeatedly, one parsed token re-evaluated with other variables.
+    The model is a pure function (theorem call_site_reuse_eq_map), so the expected list is the list of the
+    single-call results."""
+    form = rng.choice(['for2', 'for2', 'forp', 'forx', 'map', 'fnitem', 'vars', 'vars', 'varsp'])
+    if form in ('map', 'fnitem'):
+        ver = rng.choice(['30', '31'])
+    elif form in ('vars', 'varsp'):
+        ver = rng.choice(['10', '20', '30', '31'])
+    else:
+        ver = rng.choice(['20', '30', '31'])
+    tags = 'D' if ver == '10' else rng.choice(['idDF', 'id', 'iD', 'dD', 'D', 'iF', 'i', 'd'])
+
+    def val():
+        v = gen_val(rng, tags)
+        if rng.random() < 0.25:     # zeros of every kind are prominent
+            t = v[0]
+            v = ('i', 0) if t == 'i' else ('d', 0, rng.choice([0, 1])) if t == 'd' else (t, rng.choice(['0', '-0']))
+        if v[0] == 'i' and abs(v[1]) >= 2**1000:
+            v = ('i', v[1] % 10**25)
+        return v
+
+    def precs(k):
+        return [rng.choice([0, 1, 2, 3, -1, -2, -3, 5]) for _ in range(k)]
+    g = {'form': form, 'v': ver, 'variables': None}
+    if form == 'for2' or form == 'vars':
+        ops = ['add', 'sub', 'mul', 'div', 'mod'] if ver == '10' else BIN
+        op = rng.choice(ops)
+        As, Bs = [val() for _ in range(3)], [val() for _ in range(2)]
+        if form == 'for2':
+            g['elems'] = [C(ver, op, a, b) for a in As for b in Bs]
+            g['expr'] = (f"for $a in ({', '.join(lit(a, ver, 0) for a in As)}), $b in ({', '.join(lit(b, ver, 0) for b in Bs)}) "
+                         f"return $a {SYM[op]} $b")
+        else:
+            pairs = [(a, b) for a in As for b in Bs][:4]
+            g['elems'] = [C(ver, op, a, b) for a, b in pairs]
+            g['expr'] = f'$a {SYM[op]} $b'
+            g['variables'] = [{'a': lit(a, ver, 0), 'b': lit(b, ver, 0)} for a, b in pairs]
+    elif form in ('forp', 'varsp', 'fnitem') or (form == 'map' and rng.random() < 0.5):
+        fn = 'rhe' if (ver in ('10', '20') or rng.random() < 0.4) else 'round'
+        if ver == '10':          # no precision argument in 1.0: vary the operand instead
+            Xs = [val() for _ in range(3)]
+            op = rng.choice(['floor', 'ceiling', 'round1', 'neg'])
+            g['elems'] = [C(ver, op, x) for x in Xs]
+            g['expr'] = '-($x)' if op == 'neg' else f'{FN[op]}($x)'
+            g['variables'] = [{'x': lit(x, ver, 0)} for x in Xs]
+            g['form'] = 'vars'
+        else:
+            X, ps = val(), precs(3)
+            g['elems'] = [C(ver, fn, X, p=p) for p in ps]
+            name = FN[fn]
+            if form == 'forp':
+                g['expr'] = f"for $p in ({', '.join(map(str, ps))}) return {name}({lit(X, ver, 0)}, $p)"
+            elif form == 'map':
+                g['expr'] = f"({', '.join(map(str, ps))}) ! {name}({lit(X, ver, 0)}, .)"
+            elif form == 'fnitem':
+                g['expr'] = (f"let $f := {name}#2 return (" + ', '.join(f'$f({lit(X, ver, 0)}, {p})' for p in ps) + ')')
+            else:
+                g['expr'] = f'{name}($x, $p)'
+                g['variables'] = [{'x': lit(X, ver, 0), 'p': str(p)} for p in ps]
+    else:                       # forx / map over the operand
+        op = rng.choice(['neg', 'abs', 'floor', 'ceiling', 'rhe', 'round1' if ver == '20' else 'round'])
+        Xs = [val() for _ in range(3)]
+        p = rng.choice([None, 1, -1]) if op in ('rhe', 'round') else None
+        g['elems'] = [C(ver, op, x, p=p) for x in Xs]
+        call = (lambda arg: f'-({arg})') if op == 'neg' else \
+            (lambda arg: f'{FN[op]}({arg})' if p is None else f'{FN[op]}({arg}, {p})')
+        lst = ', '.join(lit(x, ver, 0) for x in Xs)
+        g['expr'] = f'for $x in ({lst}) return {call("$x")}' if form != 'map' else f'({lst}) ! {call(".")}'
+    return g
+
+
+def compare_reuse(run: Run, groups: list) -> None:
+    st = run.stats
+    flat = [c for g in groups for c in g['elems']]
+    answers = ask(run, flat)
+    k = 0
+    for g in groups:
+        ans = answers[k:k + len(g['elems'])]
+        k += len(g['elems'])
+        if any(a is None for a in ans) or any('big' in a['flags'] for a in ans):
+            continue
+        ver = g['v']
+        st.count('reuse:' + g['form'])
+        st.evaluations += 1
+        gj = {'v': ver, 'form': g['form'], 'expr': g['expr'], 'elems': [case_json(c) for c in g['elems']]}
+        site = f"reuse:{g['form']}@{ver}"
+        if g['variables'] is not None:
+            # one parsed token, evaluated once per binding (values built by evaluating the operand literals)
+            import elementpath
+            cls = parser_of(ver)
+            try:
+                token = cls().parse(g['expr'])
+            except Exception as e:  # noqa
+                run.disagree(Disagreement(gj, 'ERR:parse:' + type(e).__name__, what='reuse-parse', site=site))
+                continue
+            for n, (binding, a) in enumerate(zip(g['variables'], ans)):
+                values = {name: elementpath.select(None, src, parser=cls, item=1) for name, src in binding.items()}
+                paths = {'evaluate': guarded(lambda: token.evaluate(elementpath.XPathContext(root=None, item=1, variables=dict(values)))),
+                         'select': guarded(lambda: list(token.select(elementpath.XPathContext(root=None, item=1, variables=dict(values)))))}
+                vals = set(paths.values())
+                impl = vals.pop() if len(vals) == 1 else 'PATHS{' + ' '.join(f'{p}={v}' for p, v in paths.items()) + '}'
+                judge(run, dict(gj, evaluation=n, binding=binding), site, conv_ver(impl, ver), a, True, what='call-site-reuse')
+            continue
+        impl = conv_ver(eval_paths(g['expr'], ver, api=(k % 3 == 0)), ver)
+
+        def seq(key):
+            items = [a[key] for a in ans]
+            errs = [x for x in items if x.startswith('ERR')]
+            return errs[0] if errs else 'SEQ[' + ','.join(items) + ']'
+        flags = sorted({f for a in ans for f in a['flags']})
+        exp = {'model': seq('model'), 'spec': seq('spec'), 'specI': None, 'flags': [f for f in flags if f != 'fhyp'], 'raw': ''}
+        before = len(run.disagreements)
+        judge(run, gj, site, impl, exp, True, what='call-site-reuse')
+        if len(run.disagreements) > before and impl.startswith('SEQ[') and exp['model'].startswith('SEQ['):
+            # point at the first evaluation that differs
+            got, want = impl[4:-1].split(','), exp['model'][4:-1].split(',')
+            for n, (x, y) in enumerate(zip(got, want)):
+                if x != y:
+                    run.disagreements[-1].case = dict(gj, first_differing_evaluation=n, got=x, expected_model=y)
+                    break
 
 
 def grid_cases(vers=('20', '31'), small=False):
@@ -573,7 +846,7 @@ def grid_cases(vers=('20', '31'), small=False):
 
 def correspond(run: Run) -> None:
     rng = run.rng
-    n = run.scale(40000, 500000)
+    n = run.scale(30000, 400000)
     cases = list(CORPUS)
     corpus_file = Path(__file__).resolve().parent.parent / 'corpus' / 'C06' / 'seeds.jsonl'
     if corpus_file.exists():
@@ -595,9 +868,27 @@ def correspond(run: Run) -> None:
         'syntax; plus the seed corpus and (a sample of) the exhaustive small grid. distinct = distinct request lines')
     for i in range(0, len(cases), 5000):
         compare(run, cases[i:i + 5000])
-    run.log(f'correspondence done: {len(cases)} cases')
+    groups = [gen_reuse(rng) for _ in range(run.scale(3000, 40000))] + list(REUSE_CORPUS)
+    for i in range(0, len(groups), 2000):
+        compare_reuse(run, groups[i:i + 2000])
+    run.log(f'correspondence done: {len(cases)} cases, {len(groups)} call-site-reuse groups')
 
 
+REUSE_CORPUS = [
+    {'form': 'forp', 'v': '31', 'variables': None, 'expr': "for $p in (0, 2, -2) return round(xs:decimal('1234.5678'), $p)",
+     'elems': [C('31', 'round', ('d', 12345678, 4), p=p) for p in (0, 2, -2)]},
+    {'form': 'map', 'v': '31', 'variables': None, 'expr': "(2, 0, -2) ! round(xs:decimal('1234.5678'), .)",
+     'elems': [C('31', 'round', ('d', 12345678, 4), p=p) for p in (2, 0, -2)]},
+    {'form': 'fnitem', 'v': '30', 'variables': None,
+     'expr': "let $f := round#2 return ($f(xs:decimal('1234.5678'), 0), $f(xs:decimal('1234.5678'), 2), $f(xs:decimal('1234.5678'), -2))",
+     'elems': [C('30', 'round', ('d', 12345678, 4), p=p) for p in (0, 2, -2)]},
+    {'form': 'varsp', 'v': '31', 'expr': 'round($x, $p)',
+     'variables': [{'x': "xs:decimal('1234.5678')", 'p': str(p)} for p in (0, 2, -2)],
+     'elems': [C('31', 'round', ('d', 12345678, 4), p=p) for p in (0, 2, -2)]},
+    {'form': 'for2', 'v': '20', 'variables': None,
+     'expr': "for $a in (xs:integer('0'), xs:integer('-7'), xs:double('-0')), $b in (xs:integer('5'), xs:double('0')) return $a * $b",
+     'elems': [C('20', 'mul', a, b) for a in (('i', 0), ('i', -7), ('D', '-0')) for b in (('i', 5), ('D', '0'))]},
+]
 EMPTY_EXPECT = [("() + 1", 'EMPTY'), ("1 + ()", 'EMPTY'), ("() - 2.5", 'EMPTY'), ("() * 2e0", 'EMPTY'), ("2 div ()", 'EMPTY'),
                 ("() mod 2", 'EMPTY'), ("5 mod ()", 'EMPTY'), ("-()", 'EMPTY'), ("+()", 'EMPTY'), ("abs(())", 'EMPTY'),
                 ("round(())", 'EMPTY'), ("floor(())", 'EMPTY'), ("ceiling(())", 'EMPTY'),
@@ -612,12 +903,7 @@ def check_empty(run: Run) -> None:
     import elementpath
     for ver in ('20', '30', '31'):
         for expr, want in EMPTY_EXPECT:
-            try:
-                got = canon(elementpath.select(None, expr, parser=parser_of(ver), item=1))
-            except elementpath.ElementPathError as e:
-                got = 'ERR:' + (getattr(e, 'code', None) or 'NOCODE').split(':')[-1]
-            except Exception as e:  # noqa
-                got = 'ERR:OTHER:' + type(e).__name__
+            got = eval_paths(expr, ver, api=True)
             run.stats.count('empty-operand')
             if got != want:
                 run.disagree(Disagreement({'v': ver, 'expr': expr}, got, None, want, what='empty-operand', site=expr))
